@@ -1121,9 +1121,138 @@ theorem instr_step (ns : NumSem) (hns : NumOK ns) (hmo : MemOK ns) (ctx : Ctx) (
         show execStmt ns (f + 1) (MStmtC.memGrow ⟨.i32, s0.idx⟩ s0) σ = _
         simp only [execStmt]
         rw [u2]
-  | memoryCopy => stuck_case
-  | memoryFill => stuck_case
-  | memoryInit seg => stuck_case
+  | memoryCopy =>
+    rw [compileInstr] at hc
+    cases h0 : st.top 0 with
+    | none => simp [h0, bind, Except.bind] at hc
+    | some s0 =>
+    cases h1 : st.top 1 with
+    | none => simp [h0, h1, bind, Except.bind] at hc
+    | some s1 =>
+    cases h2 : st.top 2 with
+    | none => simp [h0, h1, h2, bind, Except.bind] at hc
+    | some s2 =>
+      simp only [h0, h1, h2, bind, Except.bind] at hc
+      split at hc
+      · cases hc
+      · rename_i hcond
+        injection hc with hc; simp only [Prod.mk.injEq] at hc
+        obtain ⟨rfl, rfl, rfl⟩ := hc
+        refine ⟨by simp, ?_⟩
+        rw [erunInstr, erunBulk]
+        obtain ⟨a1, a2, a3⟩ := hr.top h0
+        obtain ⟨b1, b2, b3⟩ := hr.top h1
+        obtain ⟨c1, c2, c3⟩ := hr.top h2
+        simp only [Nat.sub_zero] at a2 a3
+        have e2 : stk.length - 1 - 1 = stk.length - 2 := by omega
+        have e3 : stk.length - 1 - 2 = stk.length - 3 := by omega
+        rw [e2] at b2 b3
+        rw [e3] at c2 c3
+        have hge : st.base + 3 ≤ st.stack.length := by simp [St.height] at hcond; omega
+        have hlen := hr.length
+        have hnlt : ¬ stk.length < 3 := by omega
+        simp only [hnlt, if_false, List.getD_eq_getElem?_getD, a3, b3, c3, Option.getD_some]
+        have hex : execOut ns (f + 1) [MStmtC.memCopy s2 s1 s0] σ =
+            (match ns.bulkT .copy σ.store.g.mem (σ.get s2).bits (σ.get s1).bits (σ.get s0).bits with
+             | .val m' => MRes.normal { σ with store := { σ.store with g := { σ.store.g with mem := m' } } }
+             | .trap t => .trap t | .oof => .oof | _ => .stuck) := rfl
+        rw [hex, hl]
+        cases hss : ns.bulkS .copy loc.g.mem (σ.get s2).bits (σ.get s1).bits (σ.get s0).bits with
+        | val m' =>
+          rw [hmo.bulkRef _ _ _ _ _ m' hss]
+          subst hl
+          exact simres_pop_st hw hr 3 hge { σ.store with g := { σ.store.g with mem := m' } } ⟨hlt.len, hlt.typed, hlt.glob⟩ hwf' rfl rfl rfl rfl
+        | trap t => rw [hmo.bulkTrap _ _ _ _ _ t hss]; rfl
+        | ub => trivial
+        | oof => trivial
+  | memoryFill =>
+    rw [compileInstr] at hc
+    cases h0 : st.top 0 with
+    | none => simp [h0, bind, Except.bind] at hc
+    | some s0 =>
+    cases h1 : st.top 1 with
+    | none => simp [h0, h1, bind, Except.bind] at hc
+    | some s1 =>
+    cases h2 : st.top 2 with
+    | none => simp [h0, h1, h2, bind, Except.bind] at hc
+    | some s2 =>
+      simp only [h0, h1, h2, bind, Except.bind] at hc
+      split at hc
+      · cases hc
+      · rename_i hcond
+        injection hc with hc; simp only [Prod.mk.injEq] at hc
+        obtain ⟨rfl, rfl, rfl⟩ := hc
+        refine ⟨by simp, ?_⟩
+        rw [erunInstr, erunBulk]
+        obtain ⟨a1, a2, a3⟩ := hr.top h0
+        obtain ⟨b1, b2, b3⟩ := hr.top h1
+        obtain ⟨c1, c2, c3⟩ := hr.top h2
+        simp only [Nat.sub_zero] at a2 a3
+        have e2 : stk.length - 1 - 1 = stk.length - 2 := by omega
+        have e3 : stk.length - 1 - 2 = stk.length - 3 := by omega
+        rw [e2] at b2 b3
+        rw [e3] at c2 c3
+        have hge : st.base + 3 ≤ st.stack.length := by simp [St.height] at hcond; omega
+        have hlen := hr.length
+        have hnlt : ¬ stk.length < 3 := by omega
+        simp only [hnlt, if_false, List.getD_eq_getElem?_getD, a3, b3, c3, Option.getD_some]
+        have hex : execOut ns (f + 1) [MStmtC.memFill s2 s1 s0] σ =
+            (match ns.bulkT .fill σ.store.g.mem (σ.get s2).bits (σ.get s1).bits (σ.get s0).bits with
+             | .val m' => MRes.normal { σ with store := { σ.store with g := { σ.store.g with mem := m' } } }
+             | .trap t => .trap t | .oof => .oof | _ => .stuck) := rfl
+        rw [hex, hl]
+        cases hss : ns.bulkS .fill loc.g.mem (σ.get s2).bits (σ.get s1).bits (σ.get s0).bits with
+        | val m' =>
+          rw [hmo.bulkRef _ _ _ _ _ m' hss]
+          subst hl
+          exact simres_pop_st hw hr 3 hge { σ.store with g := { σ.store.g with mem := m' } } ⟨hlt.len, hlt.typed, hlt.glob⟩ hwf' rfl rfl rfl rfl
+        | trap t => rw [hmo.bulkTrap _ _ _ _ _ t hss]; rfl
+        | ub => trivial
+        | oof => trivial
+  | memoryInit seg =>
+    rw [compileInstr] at hc
+    cases h0 : st.top 0 with
+    | none => simp [h0, bind, Except.bind] at hc
+    | some s0 =>
+    cases h1 : st.top 1 with
+    | none => simp [h0, h1, bind, Except.bind] at hc
+    | some s1 =>
+    cases h2 : st.top 2 with
+    | none => simp [h0, h1, h2, bind, Except.bind] at hc
+    | some s2 =>
+      simp only [h0, h1, h2, bind, Except.bind] at hc
+      split at hc
+      · cases hc
+      · rename_i hcond
+        injection hc with hc; simp only [Prod.mk.injEq] at hc
+        obtain ⟨rfl, rfl, rfl⟩ := hc
+        refine ⟨by simp, ?_⟩
+        rw [erunInstr, erunBulk]
+        obtain ⟨a1, a2, a3⟩ := hr.top h0
+        obtain ⟨b1, b2, b3⟩ := hr.top h1
+        obtain ⟨c1, c2, c3⟩ := hr.top h2
+        simp only [Nat.sub_zero] at a2 a3
+        have e2 : stk.length - 1 - 1 = stk.length - 2 := by omega
+        have e3 : stk.length - 1 - 2 = stk.length - 3 := by omega
+        rw [e2] at b2 b3
+        rw [e3] at c2 c3
+        have hge : st.base + 3 ≤ st.stack.length := by simp [St.height] at hcond; omega
+        have hlen := hr.length
+        have hnlt : ¬ stk.length < 3 := by omega
+        simp only [hnlt, if_false, List.getD_eq_getElem?_getD, a3, b3, c3, Option.getD_some]
+        have hex : execOut ns (f + 1) [MStmtC.memInit seg s2 s1 s0] σ =
+            (match ns.bulkT (.init seg) σ.store.g.mem (σ.get s2).bits (σ.get s1).bits (σ.get s0).bits with
+             | .val m' => MRes.normal { σ with store := { σ.store with g := { σ.store.g with mem := m' } } }
+             | .trap t => .trap t | .oof => .oof | _ => .stuck) := rfl
+        rw [hex, hl]
+        cases hss : ns.bulkS (.init seg) loc.g.mem (σ.get s2).bits (σ.get s1).bits (σ.get s0).bits with
+        | val m' =>
+          rw [hmo.bulkRef _ _ _ _ _ m' hss]
+          subst hl
+          exact simres_pop_st hw hr 3 hge { σ.store with g := { σ.store.g with mem := m' } } ⟨hlt.len, hlt.typed, hlt.glob⟩ hwf' rfl rfl rfl rfl
+        | trap t => rw [hmo.bulkTrap _ _ _ _ _ t hss]; rfl
+        | ub => trivial
+        | oof => trivial
   | dataDrop seg => stuck_case
   | call fn =>
     rw [compileInstr] at hc
